@@ -647,6 +647,15 @@ impl<'a, Input: InputIndexer> MatchAttempter<'a, Input> {
         // TODO: we are inconsistent about passing Input by reference or value.
         let input = &inp;
         let re = self.re;
+        #[cfg(all(regress_verif, feature = "std"))]
+        crate::verif::event(
+            crate::verif::ENGINE_BACKTRACK,
+            crate::verif::EV_ENTER,
+            ip,
+            input.pos_to_offset(pos),
+            self.bts.len(),
+            Dir::FORWARD,
+        );
         // These are not really loops, they are just labels that we effectively 'goto'
         // to.
         #[allow(clippy::never_loop)]
@@ -664,6 +673,15 @@ impl<'a, Input: InputIndexer> MatchAttempter<'a, Input> {
                     };
                 }
 
+                #[cfg(all(regress_verif, feature = "std"))]
+                crate::verif::event(
+                    crate::verif::ENGINE_BACKTRACK,
+                    crate::verif::EV_INSN,
+                    ip,
+                    input.pos_to_offset(pos),
+                    self.bts.len(),
+                    Dir::FORWARD,
+                );
                 match re.insns.iat(ip) {
                     &Insn::Char(c) => {
                         let m = match <<Input as InputIndexer>::Element as ElementType>::try_from(c)
@@ -989,6 +1007,15 @@ impl<'a, Input: InputIndexer> MatchAttempter<'a, Input> {
                     }
 
                     Insn::Goal => {
+                        #[cfg(all(regress_verif, feature = "std"))]
+                        crate::verif::event(
+                            crate::verif::ENGINE_BACKTRACK,
+                            crate::verif::EV_LEAVE,
+                            1,
+                            input.pos_to_offset(pos),
+                            self.bts.len(),
+                            Dir::FORWARD,
+                        );
                         // Keep all but the initial give-up bts.
                         self.bts.truncate(1);
                         return Some(pos);
@@ -1003,8 +1030,26 @@ impl<'a, Input: InputIndexer> MatchAttempter<'a, Input> {
             // This after the backtrack loop.
             // A break 'backtrack will jump here.
             if self.try_backtrack(input, &mut ip, &mut pos, dir) {
+                #[cfg(all(regress_verif, feature = "std"))]
+                crate::verif::event(
+                    crate::verif::ENGINE_BACKTRACK,
+                    crate::verif::EV_BACKTRACK,
+                    ip,
+                    input.pos_to_offset(pos),
+                    self.bts.len(),
+                    Dir::FORWARD,
+                );
                 continue 'nextinsn;
             } else {
+                #[cfg(all(regress_verif, feature = "std"))]
+                crate::verif::event(
+                    crate::verif::ENGINE_BACKTRACK,
+                    crate::verif::EV_LEAVE,
+                    0,
+                    input.pos_to_offset(pos),
+                    self.bts.len(),
+                    Dir::FORWARD,
+                );
                 // We have exhausted the backtracking stack.
                 debug_assert!(self.bts.len() == 1, "Should have exhausted backtrack stack");
                 return None;
